@@ -19,6 +19,14 @@ def main():
     for tag, patches in variants:
         spec = {"tier": a.tier, "A": {"patches": patches}, "B": {}, "mode": "ident", "what": f"optimiser: {tag} vs full"}
         run_cases(chk, "vlib.kvk", "compare", names, spec, a.jobs)
+    # sum-factorised kernels are where loop fusion and hoisting do most of their work
+    from vlib.formcheck import STRICT_OPTS
+    sf = [n for n in corpus.select("c10sf", quick=(a.tier == "quick")) if not a.only or n in a.only.split(",")]
+    sfo = dict(STRICT_OPTS, sum_factorization=True)
+    for tag, patches in variants:
+        spec = {"tier": a.tier, "A": {"patches": patches, "options": sfo}, "B": {"options": sfo}, "mode": "ident", "what": f"optimiser on sum-factorised kernels: {tag} vs full", "a_may_reject": True}
+        run_cases(chk, "vlib.kvk", "compare", sf, spec, a.jobs)
+    chk.extra["sum_factorised_programs"] = len(sf)
     from vlib import randforms
     rnames = [randforms.name_of(chk.seed, i) for i in range(12 if a.tier == "quick" else 160)] if not a.only else []
     run_cases(chk, "vlib.kvk", "compare", rnames, {"tier": "quick", "A": {"patches": ["noopt"]}, "B": {}, "mode": "ident", "what": "optimiser: noopt vs full (random forms)"}, a.jobs)
